@@ -643,7 +643,10 @@ impl GState {
             _ => {
                 // malformed stream: stale / bogus handles, bad names
                 let h = self.stale_or_bogus(rng);
-                match rng.below(12) {
+                match rng.below(15) {
+                    12 => Op::SeekCur(h, *rng.pick(&[0i32, 5, -5, i32::MAX, i32::MIN])),
+                    13 => Op::SeekEnd(h, rng.below(3) as u32),
+                    14 => Op::SeekStart(h, rng.below(3) as u32),
                     0 => Op::Read(h, 10),
                     1 => Op::Write(h, vec![1, 2, 3]),
                     2 => Op::CloseFile(h),
@@ -721,6 +724,16 @@ impl GState {
                 }
             }
             Op::OpenFile(d, n, m) => {
+                // a truncating open that failed on a device fault may or may not have emptied the file
+                if !ok && out.res == "err DeviceError" && matches!(m, Mode::ReadWriteTruncate | Mode::ReadWriteCreateOrTruncate) {
+                    if let Some(gd) = self.dirs.iter().find(|x| x.handle == *d).cloned() {
+                        let mut path = gd.path.clone();
+                        path.push(sfn(n));
+                        if let Some(rf) = self.trees[gd.vol].file_at_mut(&path) {
+                            rf.opaque = true;
+                        }
+                    }
+                }
                 if let Some(h) = out.handle() {
                     if let Some(gd) = self.dirs.iter().find(|x| x.handle == *d).cloned() {
                         let name = sfn(n);
@@ -818,6 +831,15 @@ impl GState {
             Op::CloseFile(f) => {
                 // the handle is gone whether or not the flush inside failed (BadHandle aside)
                 if self.files.iter().any(|x| x.handle == *f) && out.res != "err BadHandle" && out.res != "err LockError" {
+                    // a close whose flush failed (device fault): what the directory entry says about the file is
+                    // no longer known to the reference (old size or new): its content is not tracked from here on
+                    if !ok {
+                        if let Some(gf) = self.files.iter().find(|x| x.handle == *f).cloned() {
+                            if let Some(rf) = self.trees[gf.vol].file_at_mut(&gf.path) {
+                                rf.opaque = true;
+                            }
+                        }
+                    }
                     self.files.retain(|x| x.handle != *f);
                     self.closed_handles.push(*f);
                 }
